@@ -277,7 +277,7 @@ def rescale_pseudopressure(
         new table of PVT properties
     """
     df_pvt = df_pvt.copy() if hasattr(df_pvt, "copy") else copy.deepcopy(df_pvt)
-    pseudopressure = interp1d(df_pvt.pressure, df_pvt.pseudopressure)
+    pseudopressure = interp1d(df_pvt["pressure"], df_pvt["pseudopressure"])
     df_pvt["pseudopressure"] = (pseudopressure(df_pvt["pressure"]) - pseudopressure(p_frac)) / (
         pseudopressure(p_i) - pseudopressure(p_frac)
     )
